@@ -203,6 +203,7 @@ type Exec struct {
 }
 
 type Thread struct {
+	deepSame bool // vSameDeep in progress: maps and slices by content
 	id     int
 	e      *Exec
 	wake   chan struct{}
